@@ -247,6 +247,9 @@ def gen_k_plan(run_seed: int, hashseed: int = 0, catalogue=None, p_backend_c: fl
     for n, ix in prob["inputs"].items():
         dims = [sizes[x] for x in ix]
         inputs[n] = {"dims": dims, "entries": gen_entries(rng, dims)}
+        if 0 in dims and any(d > 0 for d in dims) and rng.random() < 0.6:
+            inputs[n]["stubs"] = [[rng.randrange(d) if d > 0 else None for d in dims]
+                                  for _ in range(rng.randint(1, 3))]
     n_comp = rng.choice([0, 1, 1, 2, 3])
     revalues = []
     for _ in range(n_comp):
@@ -330,12 +333,15 @@ def parse_fmt(fmt: str):
     return modes, ordering
 
 
-def build_structure(dims, fmt: str, entries):
+def build_structure(dims, fmt: str, entries, stubs=()):
     """Canonical taco structure of a tensor, built independently of tensora.
 
     entries: list of [coords, value]; stored explicitly (zeros included) in
-    compressed levels.  Returns (levels, vals): levels[l] is None for a dense
-    level, (pos, crd) for a compressed one.
+    compressed levels.  stubs: coordinates (None for the zero-sized dimensions) of
+    prefixes that compressed levels store although no value lies below them (only
+    possible above a zero-sized level; well-formed all the same).  Returns
+    (levels, vals): levels[l] is None for a dense level, (pos, crd) for a
+    compressed one.
     """
     modes, ordering = parse_fmt(fmt)
     order = len(dims)
@@ -343,6 +349,16 @@ def build_structure(dims, fmt: str, entries):
     for c, v in entries:
         stored[tuple(c[ordering[l]] for l in range(order))] = v
     keys = sorted(stored)
+    for c in stubs:
+        pre = []
+        for l in range(order):
+            x = c[ordering[l]]
+            if x is None:
+                break
+            pre.append(x)
+        if pre:
+            keys.append(tuple(pre))
+    keys = sorted(set(keys))
     positions = [()]
     levels = []
     for l in range(order):
@@ -353,7 +369,8 @@ def build_structure(dims, fmt: str, entries):
         else:
             children = {}
             for kx in keys:
-                children.setdefault(kx[:l], set()).add(kx[l])
+                if len(kx) > l:
+                    children.setdefault(kx[:l], set()).add(kx[l])
             pos = [0]
             crd = []
             newpos = []
